@@ -348,6 +348,7 @@ def run_lock(rep, scens, family, probe_pct=25, max_steps=600, salt=0, judge=None
         return part, mblocks, hblocks, None
 
     mism = 0
+    rejected, diverged = [], []
     from concurrent.futures import ThreadPoolExecutor
     with ThreadPoolExecutor(max_workers=len(shards) or 1) as ex:
         results = list(ex.map(one, shards))
@@ -383,34 +384,37 @@ def run_lock(rep, scens, family, probe_pct=25, max_steps=600, salt=0, judge=None
                 bad_m, _ = run_monitor(monitor, m_all, sc)
                 for kf in known_h:
                     rep.known_hits[kf.split(" (")[0]] = rep.known_hits.get(kf.split(" (")[0], 0) + 1
-                if bad_h:
-                    rep.coverage["monitor_rejections"] = rep.coverage.get("monitor_rejections", 0) + 1
-                    if len(rep.violations) < 3:
-                        rep.violation(
-                            "family %s: the observed execution violates %s: %s%s" %
-                            (family, rep.prop, "; ".join("%s: %s" % b for b in bad_h[:3]),
-                             " (the model produces the same history)" if bad_m and m == h else ""),
-                            "family: %s\nmode: lock\nclauses: %s\n--- scenario\n%s\nschedule %s\n--- model\n%s\n--- impl\n%s\n" %
-                            (family, bad_h[:5], sc, sched_txt, "\n".join(m_all), "\n".join(h_all)))
-                    mism += 1
-                    continue
-            if m != h:
+            if bad_h:
+                rep.coverage["monitor_rejections"] = rep.coverage.get("monitor_rejections", 0) + 1
+                mism += 1
+                rejected.append((
+                    "family %s: the observed execution violates %s: %s%s" %
+                    (family, rep.prop, "; ".join("%s: %s" % b for b in bad_h[:3]),
+                     " (the model produces the same history)" if bad_m and m == h else ""),
+                    "family: %s\nmode: lock\nclauses: %s\n--- scenario\n%s\nschedule %s\n--- model\n%s\n--- impl\n%s\n" %
+                    (family, bad_h[:5], sc, sched_txt, "\n".join(m_all), "\n".join(h_all))))
+            elif m != h:
                 if slow:
                     rep.coverage["inconclusive"] = rep.coverage.get("inconclusive", 0) + 1
                     continue
                 mism += 1
-                if len(rep.violations) < 3:
-                    first = next((i for i, (a, b) in enumerate(zip(m, h)) if a != b), min(len(m), len(h)))
-                    rep.violation(
-                        "family %s (engine L): the implementation left the model's schedule at step %d: "
-                        "model `%s` impl `%s`; no clause of %s is violated by the observed execution" %
-                        (family, first, m[first] if first < len(m) else "<end>",
-                         h[first] if first < len(h) else "<end>", rep.prop),
-                        "obligation: correspondence (engine L, family %s): the code no longer behaves like "
-                        "the model the theorems of coq/Props/%s.v are about\nfamily: %s\nmode: lock\n"
-                        "--- scenario\n%s\nschedule %s\n--- model\n%s\n--- impl\n%s\n" %
-                        (family, rep.prop, family, sc, sched_txt, "\n".join(m), "\n".join(h)),
-                        no_input=True)
+                first = next((i for i, (a, b) in enumerate(zip(m, h)) if a != b), min(len(m), len(h)))
+                diverged.append((
+                    "family %s (engine L): the implementation left the model's schedule at step %d: "
+                    "model `%s` impl `%s`; no clause of %s is violated by the observed execution" %
+                    (family, first, m[first] if first < len(m) else "<end>",
+                     h[first] if first < len(h) else "<end>", rep.prop),
+                    "obligation: correspondence (engine L, family %s): the code no longer behaves like "
+                    "the model the theorems of coq/Props/%s.v are about\nfamily: %s\nmode: lock\n"
+                    "--- scenario\n%s\nschedule %s\n--- model\n%s\n--- impl\n%s\n" %
+                    (family, rep.prop, family, sc, sched_txt, "\n".join(m), "\n".join(h_all))))
+    # concrete failing inputs first; a bare divergence only when no execution violates a clause
+    for text, body in rejected[:3]:
+        rep.violation(text, body)
+    if not rejected:
+        for text, body in diverged[:2]:
+            rep.violation(text, body, no_input=True)
+    rep.coverage["divergences"] = rep.coverage.get("divergences", 0) + len(diverged)
     rep.coverage["disagreements_checked"] += mism
     return mism
 
